@@ -327,6 +327,10 @@ def gen_C17(tier, rnd):
         for t in ['( ' * k + '-name x -o -uid 0' + ' )' * k, '! ' * k + '-true', ' -o '.join(['( ! -true )'] * k), ' '.join(['! -name x%d' % i for i in range(k)]),
                   '( ! ' * k + '-name x' + ' )' * k]:
             b.append('C %s %s' % (hx(t), hx('/dev/x')))
+    # digit runs beyond every machine word for every numeric reader (decimal and octal), in both builds
+    for w in ['2000000000000000000644', '1777777777777777777777', '7' * 22, '7' * 23, '1' + '0' * 22 + '644', '4' + '0' * 42 + '755', '9' * 20, '9' * 39, '1' + '0' * 40]:
+        for text in ['-perm %s', '-perm -%s', '-perm /%s', '-uid %s', '-links %s', '-size %sk', '-mtime %s', '-threads %s', '-inum +%s']:
+            b.append('C %s %s' % (hx(text % w), hx('/dev/x')))
     # octal escapes in a row (UTF-8 byte sequences spelled as escapes), through parse AND compile, in both builds
     for run in gp.octal_runs():
         esc = ''.join('\\%03o' % v for v in run)
